@@ -9,7 +9,8 @@ ASSUMPTIONS = [
     "the origin is feasible for every instance (bounds contain 0 after the solvers' own clamping, b_I >= 0 for the "
     "tangential solver), as the statement requires",
     "tolerances: bounds exact; norm <= delta*(1+1e-8); A_I s <= b_I + 1e-8*max(1,|b|,|A_row|*delta); "
-    "|A_E s| <= 1e-8*|A_row|*max(|s|, tiny)",
+    "|A_E s| <= 1e-8*|A_row|*max(|s|, 1e-8*delta) (a step of rounding-noise length relative to the radius is "
+    "judged on the scale of the radius)",
     "lattice magnitudes 2^-30..2^30 for gradients and 2^-20..2^20 for joint scalings (twelve decades)",
 ]
 RULE = ("Cartesian lattice per solver: all per-variable bound patterns {free,[0,inf),(-inf,0],{0},inside,wide}^n x "
@@ -44,7 +45,7 @@ def check(inst, s, err, ctx):
                                           f"{float(np.max(lhs - bub)):.3g}"))
         if aeq.size:
             r = np.abs(aeq @ s)
-            tol = 1e-8 * np.linalg.norm(aeq, axis=1) * max(nrm, np.finfo(float).tiny)
+            tol = 1e-8 * np.linalg.norm(aeq, axis=1) * max(nrm, 1e-8 * delta)
             if np.any(r > tol):
                 out.append(("eq:" + fn, f"{fn} step leaves the null space of the equalities by {float(np.max(r)):.3g} "
                                         f"(|s|={nrm:.3g})"))
